@@ -57,7 +57,8 @@ def to_scenario(sched, sid):
             cur.append(_stim(op="cclose", c=e["c"]))
         elif op == "expire":
             cur.append(_stim(op="expire", count=1))
-            cur.append(_stim(op="wake"))
+            if e.get("kind") == "wake":
+                cur.append(_stim(op="wake"))
     steps.append({"stim": cur, "noIter": False, "settle": True})
     return {"id": sid, "steps": steps}
 
